@@ -89,6 +89,39 @@ def handle : Handler := fun op args impl =>
     let m := match numMutationsVsRef alpha s r, listMutationsVsRef alpha s r with
       | some n, some l => "ok " ++ toString n ++ " " ++ strJoin (l.map fun (a, p, alt) => toString a.toNat ++ "." ++ toString p ++ "." ++ hexOfBytes alt)
       | _, _ => "err"
+    -- the LIST, by definition (independent of the model's scan): one insertion entry per reference
+    -- coordinate p (number of reference residues to the left) holding, in order, every query residue that
+    -- faces a reference gap there; every other entry names the p-th reference residue and the query
+    -- residue facing it, which differ
+    let refBefore (i : Nat) : Nat := ((r.take i).filter (· != GAP)).length
+    let R := refBefore r.length
+    let insNaive : List (Nat × List Byte) := (List.range (R + 1)).filterMap fun p =>
+      let alt := (List.range s.length).filterMap fun i =>
+        if r.getD i 0 == GAP && s.getD i 0 != GAP && refBefore i == p then some (s.getD i 0) else none
+      if alt.isEmpty then none else some (p, alt)
+    let parseEntry (e : String) : Option (Nat × Nat × List Byte) :=
+      match e.splitOn "." with
+      | [a, p, h] => do let a ← a.toNat?; let p ← p.toNat?; let h ← bytesOfHex h; pure (a, p, h)
+      | _ => none
+    let listOk (l : String) : Bool :=
+      match (decStrs l).mapM parseEntry with
+      | none => false
+      | some es =>
+        let ins := (es.filter fun e => e.1 == 45).map fun e => (e.2.1, e.2.2)
+        let subs := es.filter fun e => e.1 != 45
+        ins == insNaive &&
+        subs.all (fun (a, p, alt) =>
+          -- the alignment position of the p-th reference residue
+          match (List.range r.length).find? (fun i => r.getD i 0 != GAP && refBefore i == p) with
+          | some i => (r.getD i 0).toNat == a && alt == [s.getD i 0] && s.getD i 0 != r.getD i 0
+          | none => false) &&
+        -- entries come in reference order
+        (let ps := es.map fun e => e.2.1
+         (ps.zip (ps.drop 1)).all fun (x, y) => decide (x ≤ y))
+    let vList := match impl.splitOn " " with
+      | ["ok", _, l] => if listOk l then "pass" else "fail:mutation-list-not-the-definition"
+      | _ => "na"
+    if vList != "pass" && vList != "na" then some ⟨m, vList⟩ else
     -- IUPAC-compatible residues, N/X and gaps never count as substitutions (naive recount)
     let v := match impl.splitOn " " with
       | ["ok", n, _] =>
